@@ -1700,6 +1700,169 @@ async fn initack_stream(s: &mut Sink, rng: &mut Rng, thorough: bool) {
 }
 
 // ------------------------------------------------------------------------------------------------
+// RTP / RTCP boundary grid (padding count, extension length, CSRC count) through every entry point
+// ------------------------------------------------------------------------------------------------
+mod rtpx {
+    /// one RTCP sub-packet; `body.len()` must be a multiple of 4
+    pub fn rtcp(pt: u8, fmt: u8, body: &[u8]) -> Vec<u8> {
+        let mut v = vec![0x80 | (fmt & 0x1F), pt];
+        v.extend(((body.len() / 4) as u16).to_be_bytes());
+        v.extend(body);
+        v
+    }
+    /// plausible bodies for every RTCP type the stack knows, plus unknown types and empty bodies
+    pub fn exemplars() -> Vec<(u8, u8, Vec<u8>)> {
+        let ssrc = [0u8, 0, 0, 5];
+        let blk = { let mut b = vec![0u8, 0, 0, 9]; b.extend([1, 0, 0, 2]); b.extend([0u8; 16]); b };
+        let cat = |parts: &[&[u8]]| parts.concat();
+        let mut v: Vec<(u8, u8, Vec<u8>)> = vec![
+            (200, 0, cat(&[&ssrc, &[0u8; 20]])), (200, 1, cat(&[&ssrc, &[0u8; 20], &blk])),
+            (201, 0, ssrc.to_vec()), (201, 1, cat(&[&ssrc, &blk])), (201, 2, cat(&[&ssrc, &blk, &blk])),
+            (202, 1, cat(&[&ssrc, &[1, 2, b'a', b'b']])), (202, 1, cat(&[&ssrc, &[1, 5, b'a', b'b', b'c', b'd', b'e', 0]])), (202, 0, vec![]),
+            (203, 1, ssrc.to_vec()), (203, 1, cat(&[&ssrc, &[3, b'b', b'y', b'e']])), (203, 2, cat(&[&ssrc, &ssrc])),
+            (204, 0, cat(&[&ssrc, b"name", &[1, 2, 3, 4]])),
+            (205, 1, cat(&[&ssrc, &ssrc, &[0, 9, 0, 3]])), (205, 1, cat(&[&ssrc, &ssrc])), (205, 15, cat(&[&ssrc, &ssrc, &[0, 1, 0, 1, 0, 0, 0, 1, 0x20, 1, 4, 0]])),
+            (206, 1, cat(&[&ssrc, &ssrc])), (206, 4, cat(&[&ssrc, &ssrc, &ssrc, &[1, 0, 0, 0]])), (206, 15, cat(&[&ssrc, &ssrc, b"REMB", &[1, 0, 1, 0], &ssrc])),
+            (207, 0, cat(&[&ssrc, &[4, 0, 0, 1, 0, 0, 0, 0]])), (192, 0, ssrc.to_vec()), (208, 0, ssrc.to_vec()), (210, 0, cat(&[&ssrc, &ssrc])),
+        ];
+        for pt in [200u8, 201, 202, 203, 204, 205, 206, 207, 192] { v.push((pt, 0, vec![])); v.push((pt, 1, vec![0, 0, 0, 5])); }
+        v
+    }
+    /// P bit set and the last octet of the sub-packet set to every interesting padding count
+    pub fn padded_variants(pt: u8, fmt: u8, body: &[u8]) -> Vec<(String, Vec<u8>)> {
+        let body_len = body.len() as i64;
+        let packet_len = body_len + 4;
+        let mut pads: Vec<i64> = vec![0, 1, 2, 3, 4, body_len - 1, body_len, packet_len, 255];
+        for d in 1..=4 { pads.push(body_len + d); }
+        pads.retain(|p| (0..=255).contains(p));
+        pads.sort(); pads.dedup();
+        let mut out = vec![];
+        for p in pads {
+            // (a) overwrite the last octet of the packet as it is
+            let mut v = rtcp(pt, fmt, body);
+            v[0] |= 0x20;
+            let n = v.len(); v[n - 1] = p as u8;
+            out.push((format!("P bit, last octet := {}", p), v));
+            // (b) genuine padding appended: pad octets ending in the count (only multiples of 4 keep the length field exact)
+            if p > 0 && p % 4 == 0 && p <= 64 {
+                let mut b = body.to_vec(); b.extend(vec![0u8; p as usize - 1]); b.push(p as u8);
+                let mut v = rtcp(pt, fmt, &b); v[0] |= 0x20;
+                out.push((format!("{} octets of padding appended", p), v.clone()));
+                // ... and a count that claims more than was appended
+                let mut v2 = v.clone(); let n = v2.len(); v2[n - 1] = (b.len() as i64 + 1).min(255) as u8;
+                out.push((format!("{} octets appended, count says {}", p, v2[n - 1]), v2));
+            }
+        }
+        out
+    }
+    pub fn rtp(cc: u8, x: bool, p: bool, csrcs: usize, ext: Option<(u16, usize)>, payload: &[u8]) -> Vec<u8> {
+        let mut v = vec![0x80 | (if p { 0x20 } else { 0 }) | (if x { 0x10 } else { 0 }) | (cc & 0x0F), 96, 0, 1, 0, 0, 0, 2, 0, 0, 0, 3];
+        for i in 0..csrcs { v.extend((i as u32 + 1).to_be_bytes()); }
+        if let Some((words, actual)) = ext { v.extend([0xBE, 0xDE]); v.extend(words.to_be_bytes()); for i in 0..actual { v.push(if i % 4 == 0 { 0x10 } else { 0xAA }); } }
+        v.extend(payload);
+        v
+    }
+}
+
+async fn rtp_rtcp_streams(s: &mut Sink, rng: &mut Rng, thorough: bool) {
+    use futures::FutureExt;
+    use rustrtc::transports::ice::conn::IceConn;
+    use rustrtc::transports::rtp::RtpTransport;
+    use rustrtc::transports::PacketReceiver;
+    use rtpx::*;
+    use std::sync::Arc;
+    // ---- inputs
+    let mut rtcp_in: Vec<(String, Vec<u8>)> = vec![];
+    let rr = rtcp(201, 0, &[0, 0, 0, 5]);
+    let bye = rtcp(203, 1, &[0, 0, 0, 5]);
+    for (pt, fmt, body) in exemplars() {
+        let mut variants = vec![("unpadded".to_string(), rtcp(pt, fmt, &body))];
+        variants.extend(padded_variants(pt, fmt, &body));
+        for (w, sub) in variants {
+            rtcp_in.push((format!("pt {} fmt {} body {}: {}, alone", pt, fmt, body.len(), w), sub.clone()));
+            rtcp_in.push((format!("pt {} fmt {} body {}: {}, last of a compound", pt, fmt, body.len(), w), [rr.clone(), sub.clone()].concat()));
+            rtcp_in.push((format!("pt {} fmt {} body {}: {}, middle of a compound", pt, fmt, body.len(), w), [rr.clone(), sub.clone(), bye.clone()].concat()));
+            // length field one word short / long with the padding kept
+            for dl in [-1i32, 1] {
+                let mut v = sub.clone();
+                let lw = u16::from_be_bytes([v[2], v[3]]) as i32 + dl;
+                if lw >= 0 { v[2] = (lw >> 8) as u8; v[3] = lw as u8; rtcp_in.push((format!("pt {} fmt {} body {}: {}, length field {:+}", pt, fmt, body.len(), w, dl), [v, bye.clone()].concat())); }
+            }
+        }
+    }
+    // the witnesses of the seeded change come last, so that a failure is first reported on a generated input
+    rtcp_in.push(("seeded-change witness: padded BYE whose count exceeds the body".into(), vec![0xA0, 0xCB, 0x00, 0x01, 0, 0, 0, 0x05]));
+    rtcp_in.push(("seeded-change witness with the count in the last octet".into(), vec![0xA0, 0xCB, 0x00, 0x01, 0, 0, 0, 0x08]));
+    let mut rtp_in: Vec<(String, Vec<u8>)> = vec![];
+    for plen in [0usize, 1, 2, 5, 16] {
+        let payload: Vec<u8> = (0..plen).map(|i| i as u8 + 1).collect();
+        for ncs in [0usize, 1, 3, 15] {
+            for cc in [0u8, ncs as u8, ncs.saturating_sub(1) as u8, (ncs + 1).min(15) as u8, 15] {
+                for ext in [None, Some((0u16, 0usize)), Some((1, 4)), Some((2, 4)), Some((1, 8)), Some((1, 3)), Some((0xFFFF, 4)), Some((2, 8))] {
+                    let base = rtp(cc, ext.is_some(), false, ncs, ext, &payload);
+                    rtp_in.push((format!("payload {} csrcs {} cc {} ext {:?}", plen, ncs, cc, ext), base.clone()));
+                    let total = base.len() as i64;
+                    let mut pads: Vec<i64> = vec![0, 1, plen as i64 - 1, plen as i64, plen as i64 + 1, plen as i64 + 4, total - 12, total, 255];
+                    pads.retain(|p| (0..=255).contains(p)); pads.sort(); pads.dedup();
+                    for pd in pads {
+                        let mut v = rtp(cc, ext.is_some(), true, ncs, ext, &payload);
+                        let n = v.len(); v[n - 1] = pd as u8;
+                        rtp_in.push((format!("payload {} csrcs {} cc {} ext {:?} P bit, last octet {}", plen, ncs, cc, ext, pd), v));
+                    }
+                }
+            }
+        }
+    }
+    if !thorough { let keep: Vec<(String, Vec<u8>)> = rtp_in.iter().enumerate().filter(|(i, _)| i % 3 == 0).map(|(_, x)| x.clone()).collect(); rtp_in = keep; }
+    for _ in 0..(if thorough { 2000 } else { 300 }) {
+        // random mutations of the above at the interesting octets (first, length, last)
+        let (w, mut v) = rtcp_in[rng.below(rtcp_in.len() as u64) as usize].clone();
+        let n = v.len();
+        match rng.below(3) { 0 => v[n - 1] = rng.below(256) as u8, 1 => v[3] = rng.below(8) as u8, _ => v[0] = 0x80 | (rng.below(64) as u8) }
+        rtcp_in.push((format!("{} + random octet", w), v));
+    }
+    // ---- (1) the pub parse functions (synchronous, oracle)
+    s.batch(T_RTCP, &[], rtcp_in.iter().map(|(_, v)| v.clone()), "structured", "RTCP: every type x P bit x padding count {0,1..4, body-1, body, body+1..+4, packet, 255} x alone / last / middle of a compound, length field +-1");
+    s.batch(T_RTP, &[], rtp_in.iter().map(|(_, v)| v.clone()), "structured", "RTP: padding count vs payload length, extension length vs remaining, CSRC count vs length");
+    // ---- (2) RtpTransport::receive and IceConn::receive with RTCP / RTP listeners
+    let remote: std::net::SocketAddr = "127.0.0.1:40000".parse().unwrap();
+    let (_wtx, wrx) = tokio::sync::watch::channel(None);
+    let conn = IceConn::new(wrx, remote, None);
+    let rt = Arc::new(RtpTransport::new(conn.clone(), false));
+    conn.set_rtp_receiver(rt.clone());
+    let (rtcp_tx, mut rtcp_rx) = tokio::sync::mpsc::channel(1024);
+    let (rtp_tx, mut rtp_rx) = tokio::sync::mpsc::channel(1024);
+    rt.register_rtcp_listener(rtcp_tx);
+    rt.register_provisional_listener(rtp_tx);
+    let mut mb = Vec::new();
+    let mut n = 0u64;
+    let mut delivered = 0u64;
+    let mut first_fail: Option<(String, Vec<u8>, String)> = None;
+    for (what, v) in rtcp_in.iter().chain(rtp_in.iter()) {
+        for via in ["RtpTransport::receive", "IceConn::receive"] {
+            let pp = panics();
+            let w = AllocWin::start();
+            let b = Bytes::copy_from_slice(v);
+            let r = if via == "RtpTransport::receive" { std::panic::AssertUnwindSafe(rt.receive(b, remote, &mut mb)).catch_unwind().await }
+                    else { std::panic::AssertUnwindSafe(conn.receive(b, remote, &mut mb)).catch_unwind().await };
+            live_alloc_note(via, v, &w);
+            n += 1;
+            while rtcp_rx.try_recv().is_ok() { delivered += 1; }
+            while rtp_rx.try_recv().is_ok() { delivered += 1; }
+            if (r.is_err() || panics() > pp) && first_fail.is_none() {
+                first_fail = Some((format!("{} via {}", what, via), v.clone(), last_panic()));
+            }
+        }
+    }
+    s.count(T_RTCP, V_OK);
+    s.out.push(Case { term: "-".into(),
+        desc: json!({"target": "RtpTransport::receive / IceConn::receive (RTCP + RTP listeners)", "what": "the RTP / RTCP boundary grid through the transport entry points", "inputs": n, "delivered_to_listeners": delivered,
+                     "first_failing": first_fail.as_ref().map(|(w, v, _)| json!({"what": w, "input_hex": v.iter().map(|b| format!("{:02x}", b)).collect::<String>()}))}),
+        oracle_fail: first_fail.map(|(w, v, m)| format!("PANIC on {}: {} (input {})", w, m, hex(&v))),
+        known: None, nontrivial: delivered > 0, key: "rtp|rtcp|live".into(), kind: "structured".into() });
+}
+
+// ------------------------------------------------------------------------------------------------
 // live DTLS endpoints: hostile handshake traffic before, during and after the handshake
 // ------------------------------------------------------------------------------------------------
 mod dtlsx {
@@ -2380,6 +2543,9 @@ fn main() {
         let t = Instant::now();
         if want("udptl") { let mut r = Rng::new(args.seed ^ 0x3333); udptl_streams(&mut s, &mut r, thorough).await; flush_bloats(&mut s, "udptl"); }
         times.insert("udptl".into(), json!(t.elapsed().as_secs_f64()));
+        let t = Instant::now();
+        if want("rtp") { let mut r = Rng::new(args.seed ^ 0x7777); rtp_rtcp_streams(&mut s, &mut r, thorough).await; flush_bloats(&mut s, "rtp"); }
+        times.insert("rtp".into(), json!(t.elapsed().as_secs_f64()));
         let t = Instant::now();
         if want("dtls") { let mut r = Rng::new(args.seed ^ 0x4444); dtls_streams(&mut s, &mut r, thorough).await; flush_bloats(&mut s, "dtls"); }
         times.insert("dtls".into(), json!(t.elapsed().as_secs_f64()));
